@@ -30,3 +30,44 @@ Definition unguarded_run {W} (stmts : list W) (hist : list faults) (w : @world W
 Definition run_Z (stmts : list Z) (hist : list faults) (init : list Z) (dirty : bool) :=
   let w := mkWorld init (if dirty then Some (mkConn [(-99)] true true) else None) in
   let '(r, w', tr) := gen_run stmts hist w in (r, committed w', tr).
+
+(* ------------------------------------------------------------------------------------------------ *)
+(** * The Database.* helpers *)
+
+(** a helper call = the retry wrapper around ONE transaction running the plan GENERATED from the helper's source *)
+Definition gen_helper_run {W} (c : helper_call W) (hist : list faults) (w : @world W) :=
+  gen_run (C27.Gen.helper_plan c) hist w.
+
+Definition stmt_fault (i : nat) (e : err) (eff : effect) : faults := mkFaults None None (Some (i, e, eff)) None None.
+Definition commit_fault (e : err) (lost : bool) : faults := mkFaults None None None (Some (e, lost)) None.
+
+Definition stmt_out_of_range (n : nat) (f : faults) : Prop :=
+  match f_stmt f with None => True | Some (i, _, _) => (n <= i)%nat end.
+
+(** "the plan [f] makes error [e] happen in an attempt on [n] statements": where the adversary can strike — at acquire,
+    at START TRANSACTION, at ANY statement index below n (with any of the three effects), or at COMMIT *)
+Inductive fault_site (n : nat) (f : faults) (e : err) : Prop :=
+| AtAcquire : f_acquire f = Some e -> fault_site n f e
+| AtStart l : f_acquire f = None -> f_start f = Some (e, l) -> fault_site n f e
+| AtStatement i eff : f_acquire f = None -> f_start f = None -> f_stmt f = Some (i, e, eff) -> (i < n)%nat -> fault_site n f e
+| AtCommit l : f_acquire f = None -> f_start f = None -> stmt_out_of_range n f -> f_commit f = Some (e, l) -> fault_site n f e.
+
+(** [x] occurs in [final] exactly as often as in [init], plus [k] times its occurrences among [rows] *)
+Definition occurs_plus {W} (dec : forall a b : W, {a = b} + {a <> b}) (final init rows : list W) (k : nat) : Prop :=
+  forall x, count_occ dec final x = (count_occ dec init x + k * count_occ dec rows x)%nat.
+
+(** instances evaluated by the correspondence for long argument arrays: rows 0 .. n-1, logs printed as runs *)
+Definition zrange (n : Z) : list Z := map Z.of_nat (seq 0 (Z.to_nat n)).
+
+Definition run_many_Z (n : Z) (hist : list faults) (init : list Z) :=
+  let '(r, w', tr) := gen_helper_run (HExecuteMany (zrange n)) hist (mkWorld init None) in
+  (r, runs (committed w'), map (fun x => (fst x, runs (snd x))) tr).
+
+(** the bulk path: wire statements of k rows each; a statement's effect is its list of rows, the table is the concatenation *)
+Definition run_chunks_Z (n k : Z) (hist : list faults) (init : list Z) :=
+  let rows := zrange n in
+  let '(r, w', tr) := gen_helper_run (HExecuteMany (chunks_of (length rows) (Z.to_nat k) rows)) hist (mkWorld [init] None) in
+  (r, runs (concat (committed w')), map (fun x => (fst x, runs (concat (snd x)))) tr).
+
+Definition run_helper_Z (c : helper_call Z) (hist : list faults) (init : list Z) :=
+  let '(r, w', tr) := gen_helper_run c hist (mkWorld init None) in (r, committed w', tr).
